@@ -282,8 +282,9 @@ def rule_exporter(ctx):
             pos[role] = {"server Finished in transcript": queued or sent, "client Finished in transcript": recv_fin}
             pos[role]["client Certificate/CertificateVerify in transcript"] = recv_cert_verify
         if role == "client":
-            sent_cv = any(n.id in before and n.kind == "consume" and "certificate_verify" in norm(n.call) for n in g.nodes) or \
-                any(n.id in before and n.kind == "consume" and norm(n.call) == "self._sendMsg(client_certificate)" for n in g.nodes)
+            sent_cv = any(n.id in before and n.kind == "consume" and call_name(n.call) in ("_sendMsg", "_sendMsgs")
+                          and ("certificate_verify" in norm(n.call) or "client_certificate" in norm(n.call))
+                          for n in g.nodes)
             pos[role]["client Certificate/CertificateVerify in transcript"] = sent_cv
     ctx.info["exporter_transcript_position"] = pos
     for k in sorted(pos["client"]):
